@@ -55,16 +55,33 @@ class Listener:
         self.out.close()
 
     def drain_and_kill(self):
-        last, stable = -1, 0
-        deadline = time.time() + 10
-        while time.time() < deadline and stable < 6:
-            sz = os.path.getsize(self.path)
-            stable = stable + 1 if sz == last else 0
-            last = sz
-            time.sleep(0.05)
+        """The listener serves one client at a time, to the end of its stream, before accepting the next. A sentinel
+        client (a well-behaved one: it reads the handshake first) therefore is served only after everything the run
+        sent has been printed; when the sentinel line shows up in the output, the output is complete. No timing."""
+        import socket
+        sentinel = ("[sentinel %032x]" % random.getrandbits(128)).encode()
+        s = socket.create_connection(("127.0.0.1", self.fx.log_port), timeout=60)
+        f = s.makefile("rb")
+        f.readline()                       # filter arguments sent by the listener
+        s.sendall(sentinel + b"\n")
+        s.shutdown(socket.SHUT_WR)
+        s.close()
+        deadline = time.time() + 120
+        data = b""
+        while time.time() < deadline:
+            with open(self.path, "rb") as fh:
+                data = fh.read()
+            if sentinel in data:
+                break
+            if self.p.poll() is not None:
+                break
+            time.sleep(0.02)
+        else:
+            self.kill()
+            raise vlib.ToolError("listener did not print the sentinel within 120 s")
         self.kill()
-        with open(self.path, "rb") as f:
-            return f.read()
+        i = data.find(sentinel)
+        return data[:i] if i >= 0 else data
 
 
 def stored_logs(bins, res, targets, cmds):
